@@ -25,7 +25,9 @@ env = dict(os.environ, CARGO_NET_OFFLINE="true", CARGO_TARGET_DIR="/tmp/confirm-
 def sh(cmd, **kw): return subprocess.run(cmd, shell=True, capture_output=True, text=True, env=env, **kw)
 for f in (diff, demo): assert os.path.exists(f), f"missing {f}"
 if not os.path.isdir(WT):
-    r = sh(f"git -C /repo worktree add -q --detach {WT} HEAD"); assert r.returncode == 0, r.stderr
+    with open("/tmp/verif-wtadd.lock", "w") as lk:  # concurrent `git worktree add` calls collide
+        fcntl.flock(lk, fcntl.LOCK_EX)
+        r = sh(f"git -C /repo worktree add -q --detach {WT} HEAD"); assert r.returncode == 0, r.stderr
 sh(f"git -C {WT} checkout -q --detach $(git -C /repo rev-parse HEAD) && git -C {WT} checkout -- . && git -C {WT} clean -fdq tests src")
 conf = {}
 # touches only library source?
